@@ -87,19 +87,72 @@ def run_history(seq, caching):
     return bad
 
 
+HIP_CONTENTS = ['Reservoir Temperature, 250\nReservoir Area, 55\n', 'Reservoir Temperature, 250\nReservoir Area, 110\n',
+                'Reservoir Area, 55\nReservoir Temperature, 250\n', 'Reservoir Temperature, 250\nReservoir Area, 55\nReservoir Area, 110\n']
+
+
+def hip_meaning(text):
+    """what the assessment is given: last occurrence of every name (a number that encodes it, so that HipRaResult can carry it)."""
+    d = {}
+    for ln in text.splitlines():
+        if ',' in ln and not ln.lstrip().startswith(('#', '--', '*')):
+            k, v = ln.split(',')[:2]
+            d[k.strip()] = v.strip()
+    return float(sum((i + 1) * 1000003 % 9973 * float(v) for i, (k, v) in enumerate(sorted(d.items()))))
+
+
+def run_hip_history(seq, caching):
+    import hip_ra_x as HX
+    from hip_ra import HipRaInputParameters
+    d = tempfile.mkdtemp(prefix='symx_c08h_')
+    cwd, argv = os.getcwd(), sys.argv
+    bad = []
+
+    def stub(enable_hip_ra_logging_config=False, **k):
+        inp, outp = sys.argv[1], sys.argv[2]
+        os.chdir(os.path.dirname(os.path.abspath(HX.__file__)))
+        with open(outp, 'w') as f:
+            f.write(f'***HIP CASE REPORT***\n      Input Digest:       {hip_meaning(open(inp).read())!r} kJ\n')
+    try:
+        path = os.path.join(d, 'hip.txt')
+        client = HX.HipRaXClient(enable_caching=caching)
+        with shim.shadow((HX, 'hip_ra_x', type('Stub', (), {'main': staticmethod(stub)}))):
+            for step, ci in enumerate(seq):
+                with open(path, 'w') as f:
+                    f.write(HIP_CONTENTS[ci])
+                want = hip_meaning(HIP_CONTENTS[ci])
+                r = client.get_hip_ra_result(HipRaInputParameters(path))
+                got = (r.result.get('Input Digest') or {}).get('value')
+                if got is None or abs(got - want) > 1e-9 * max(1.0, abs(want)):
+                    bad.append({'step': step, 'file content': HIP_CONTENTS[ci], 'result computed from (digest)': got, 'request means (digest)': want})
+                if os.getcwd() != cwd or sys.argv is not argv:
+                    bad.append({'step': step, 'cwd/argv not restored': os.getcwd()})
+                    os.chdir(cwd)
+                    sys.argv = argv
+    finally:
+        os.chdir(cwd)
+        sys.argv = argv
+        shutil.rmtree(d, ignore_errors=True)
+    return bad
+
+
 def units(tier):
-    return [{'harness': 'client-real-files', 'H': H, 'caching': c} for H in ((2,) if tier == 'quick' else (2, 3)) for c in (True, False)]
+    us = [{'harness': 'client-real-files', 'H': H, 'caching': c} for H in ((2,) if tier == 'quick' else (2, 3)) for c in (True, False)]
+    us += [{'harness': 'client-real-files', 'client': 'hip', 'H': 2 if tier == 'quick' else 3, 'caching': True}]
+    return us
 
 
 def run_unit(unit):
     H, caching = unit['H'], unit['caching']
-    cfg = {'harness': 'client-real-files', 'H': H, 'caching': caching, 'contents': len(CONTENTS)}
+    hip = unit.get('client') == 'hip'
+    family = HIP_CONTENTS if hip else CONTENTS
+    cfg = {'harness': 'client-real-files', 'client': 'HipRaXClient' if hip else 'GeophiresXClient', 'H': H, 'caching': caching, 'contents': len(family)}
     log = harness.UnitLog(cfg)
-    for seq in itertools.product(range(len(CONTENTS)), repeat=H):
+    for seq in itertools.product(range(len(family)), repeat=H):
         log['paths'] += 1
         log['reachable'] += 1
         log['obligations'] += 1
-        bad = run_history(seq, caching)
+        bad = run_hip_history(seq, caching) if hip else run_history(seq, caching)
         if not bad:
             log['discharged'] += 1
             continue
